@@ -685,8 +685,33 @@ class Interp:
         b = self.eval(node.right, env)
         return self.binop(BINOPS[type(node.op)], a, b)
 
+    _SAFE_OPS = (ast.Add, ast.Sub, ast.Mult, ast.BitOr, ast.BitAnd, ast.BitXor, ast.LShift)
+
+    def _safe_arith(self, node):
+        """an integer expression whose evaluation cannot raise or have effects: constants, names, + - * | & ^ and << of those"""
+        if isinstance(node, ast.Constant):
+            return isinstance(node.value, int)
+        if isinstance(node, ast.Name):
+            return True
+        if isinstance(node, ast.BinOp) and isinstance(node.op, self._SAFE_OPS):
+            return self._safe_arith(node.left) and self._safe_arith(node.right)
+        return False
+
     def e_IfExp(self, node, env):
-        if self.truth(self.eval(node.test, env)):
+        tv = self.eval(node.test, env)
+        t = ops.truth_term(tv)
+        if (getattr(node, "_pyvc_sum_term", False) and t is not None and not isinstance(t, bool)
+                and self._safe_arith(node.body) and self._safe_arith(node.orelse)):
+            # the terms of a filtered numeric sum (see e_Call): `elt if cond else 0` with concrete values is one ITE term, not two paths
+            try:
+                a, b = self.eval(node.body, env), self.eval(node.orelse, env)
+            except PyRaise:
+                a = b = None
+            # only when both arms are concrete numbers: an ITE over symbolic arms makes later bit operations much harder for
+            # the solver than the two separate paths
+            if isinstance(a, int) and isinstance(b, int) and not isinstance(a, bool) and not isinstance(b, bool):
+                return mk_int(simp(z3.If(t, T(a), T(b))))
+        if self.truth(tv):
             return self.eval(node.body, env)
         return self.eval(node.orelse, env)
 
@@ -952,6 +977,21 @@ class Interp:
             return None
         if isinstance(fn, IBound) and isinstance(fn.self_, IStub) and fn.self_.kind == "logger":
             return None
+        if isinstance(fn, INative) and fn.name == "sum" and len(node.args) == 1 and not node.keywords:
+            # sum(<numeric expr> for x in xs if <cond>): a filter on a symbolic condition would fork once per element; the sum
+            # is the same with the filtered-out terms replaced by 0, the element expression still evaluated only when it holds
+            g = node.args[0]
+            if (isinstance(g, (ast.GeneratorExp, ast.ListComp)) and len(g.generators) == 1 and g.generators[0].ifs
+                    and isinstance(g.elt, (ast.BinOp, ast.UnaryOp, ast.Constant))
+                    and not (isinstance(g.elt, ast.Constant) and not isinstance(g.elt.value, int))):
+                gen = g.generators[0]
+                test = gen.ifs[0] if len(gen.ifs) == 1 else ast.BoolOp(op=ast.And(), values=list(gen.ifs))
+                elt = ast.IfExp(test=test, body=g.elt, orelse=ast.Constant(value=0))
+                elt._pyvc_sum_term = True
+                ng = ast.ListComp(elt=elt, generators=[ast.comprehension(target=gen.target, iter=gen.iter, ifs=[], is_async=0)])
+                ast.copy_location(ng, g)
+                ast.fix_missing_locations(ng)
+                return self.call(fn, [self.eval(ng, env)], {})
         args = []
         for a in node.args:
             if isinstance(a, ast.Starred):
